@@ -324,7 +324,8 @@ fn run(sc: &Scn, w: &mut World, tr: &mut Trace, cov: &mut Cov) -> Option<Violati
     // tick: 2 ns for flow (f64 arithmetic), 1 ms for hotspot (rounded ms arithmetic)
     let tick: i128 = if is_flow { 2 } else { MS as i128 };
     let maxq_ns: i128 = if let Some(f) = &sc.flow { f.max_queue_ms as i128 } else { sc.hot.as_ref().unwrap().max_queue_ms as i128 } * MS as i128;
-    let values = ["p0", "p1", "p2"];
+    // one scenario in three: the empty string is one of the parameter values
+    let values = if (sc.epoch_ns / 1_000_000) % 3 == 0 { ["p0", "", "p2"] } else { ["p0", "p1", "p2"] };
     let mut s_prev: HashMap<u8, i128> = HashMap::new();
     let (mut n_wait, mut n_block, mut n_pass) = (0u64, 0u64, 0u64);
     for (i, op) in sc.ops.iter().enumerate() {
